@@ -840,8 +840,66 @@ func TestVerifC06(t *testing.T) {
 			}
 		}
 	}
+	// minimizeDFA together with multi-token lookahead: the entries of the lookahead tables that
+	// refer to a lookahead trie are part of a state's behaviour as well.
+	deep := vNew("C06/minimize-with-lalr-k", "seeded reduce/reduce families S: [x] A t.. | [x] B u.. | [y] C t.. | [y] D u.. with A,B,C,D: e|f and tails of 2..3 tokens sharing a prefix, compiled with lalr(2) and lalr(3), with and without minimizeDFA; all sentences and their single-token edits", false,
+		"minimize", "partitionStatesByAction", "compiler.resolveWithLookahead")
+	for i := 0; i < hCount(400, 8000); i++ {
+		nt := 8
+		hg := &hGrammar{nt: nt, nn: 5, inputs: []Input{{Nonterminal: Sym(nt), Eoi: true}}}
+		S := Sym(nt)
+		N := []Sym{Sym(nt + 1), Sym(nt + 2), Sym(nt + 3), Sym(nt + 4)}
+		first := Sym(3 + r.Intn(3))
+		tailOf := func() []Sym {
+			s := []Sym{first}
+			for k := 0; k < 1+r.Intn(2); k++ {
+				s = append(s, Sym(3+r.Intn(4)))
+			}
+			return s
+		}
+		ta, tb2 := tailOf(), tailOf()
+		hg.rules = []Rule{
+			{LHS: S, RHS: append([]Sym{N[0]}, ta...)},
+			{LHS: S, RHS: append([]Sym{N[1]}, tb2...)},
+			{LHS: S, RHS: append([]Sym{1, N[2]}, ta...)},
+			{LHS: S, RHS: append([]Sym{1, N[3]}, tb2...)},
+			{LHS: N[0], RHS: []Sym{2}}, {LHS: N[1], RHS: []Sym{2}},
+			{LHS: N[2], RHS: []Sym{Sym(2 + r.Intn(2)*5)}}, {LHS: N[3], RHS: nil},
+		}
+		hg.rules[7].RHS = hg.rules[6].RHS
+		if !hg.useful() {
+			continue
+		}
+		for _, k := range []int{2, 3} {
+			g := hg.build()
+			plain, e1, p1 := hCompile(g, Options{Lookahead: k})
+			mini, e2, p2 := hCompile(hg.build(), Options{Lookahead: k, MinimizeDFA: true})
+			desc := fmt.Sprintf("%s lalr(%d)", hg.String(), k)
+			if p1 != "" || p2 != "" {
+				deep.Case(true)
+				deep.Failf(desc, "Compile panicked: %s %s", p1, p2)
+				break
+			}
+			if e1 != nil || e2 != nil || plain.UsedLADepth < 2 {
+				deep.Case(false)
+				continue
+			}
+			deep.Case(true) // multi-token lookahead is in use (whether or not states get merged)
+			if i < 40 {
+				deep.Sample(fmt.Sprintf("%s (%d -> %d states)", desc, plain.NumStates, mini.NumStates))
+			}
+			for _, w := range hSentenceNeighbours(hg, 8, 80) {
+				a1, ev1, _ := plain.hRunDeep(g, 0, w, nil)
+				a2, ev2, _ := mini.hRunDeep(g, 0, w, nil)
+				if a1 != a2 || fmt.Sprint(ev1) != fmt.Sprint(ev2) {
+					deep.Failf(desc, "tokens %q: unminimized accept=%v %v, minimized accept=%v %v", hStr(w), a1, ev1, a2, ev2)
+					break
+				}
+			}
+		}
+	}
 	kf.Cases, kf.Nontrivial = ck.Cases, ck.Nontrivial
-	vWrite(t, nil, ck, kf)
+	vWrite(t, nil, ck, kf, deep)
 }
 
 // ---------- C07 ----------
